@@ -12,13 +12,13 @@ import (
 
 // Finding is one entry of /verif/known_findings.json (committed, never written at run time).
 type Finding struct {
-	ID       string `json:"id"`       // KFnn: the name of the deviation flag in the specification
-	Property string `json:"property"` // property it violates
-	Status   string `json:"status"`   // "open" (recorded, not repaired) | "fixed"
-	What     string `json:"what"`
-	Input    any    `json:"input,omitempty"`  // the specific failing input / program / history
-	Commit   string `json:"commit,omitempty"` // for fixed entries
-	Also     []string `json:"also,omitempty"` // other properties whose checks meet the same defect
+	ID       string   `json:"id"`       // KFnn: the name of the deviation flag in the specification
+	Property string   `json:"property"` // property it violates
+	Status   string   `json:"status"`   // "open" (recorded, not repaired) | "fixed"
+	What     string   `json:"what"`
+	Input    any      `json:"input,omitempty"`  // the specific failing input / program / history
+	Commit   string   `json:"commit,omitempty"` // for fixed entries
+	Also     []string `json:"also,omitempty"`   // other properties whose checks meet the same defect
 }
 
 type KnownFindings struct {
@@ -134,7 +134,7 @@ func (c *Check) Note(format string, a ...any) {
 // per run are written out; all are counted).
 func (c *Check) Violation(replay any, summary string) {
 	c.violations++
-	if c.replays >= 8 {
+	if replay == nil || c.replays >= 8 {
 		return
 	}
 	c.replays++
